@@ -122,6 +122,23 @@ func (s sweepSpec) programs(shard, n int, visit func(stratum string, p Prog)) (t
 			}
 		}
 	}
+	// stratum N: the dot, the newline and two letters: three entries of <= 2 tokens, with and without a dot as suffix, with and
+	// without the s flag (where the dot and the newline meet, the engine's printer nests flag groups)
+	if s.PreSuf {
+		ne := enumEntriesFlags([]string{".", `\n`, "a", "b"}, 2, s.Flags)
+		for _, e1 := range ne {
+			for _, e2 := range ne {
+				for _, e3 := range ne {
+					for _, h := range []header{{}, {Flags: "s"}, {Suffix: "."}, {Flags: "s", Suffix: "."}} {
+						if idx%n == shard {
+							visit("N", Prog{Flags: h.Flags, Suffix: h.Suffix, Lines: [][]string{e1, e2, e3}})
+						}
+						idx++
+					}
+				}
+			}
+		}
+	}
 	if s.HdrOnly {
 		// flag lines in every spelling the parser may accept: whatever compiles must print lower-case i/s only
 		for _, f := range []string{"I", "S", "Is", "iS", "SI", "si", "ii", "sis", "i s", "m", "U"} {
@@ -296,9 +313,15 @@ func shrinkProg(p Prog, valid func(Prog) bool, fails func(Prog) bool) Prog {
 		}
 		// header
 		if p.Flags != "" {
+			// the s flag changes what a dot means: in a program with a dot, dropping it gives another program, not a
+			// smaller one (a failure that is still there may be another failure, e.g. a known one)
+			keepS := strings.Contains(p.Flags, "s") && hasDot(p)
 			q := p.clone()
 			q.Flags = ""
-			if !try(q) && len(p.Flags) > 1 {
+			if keepS {
+				q.Flags = "s"
+			}
+			if (q.Flags == p.Flags || !try(q)) && len(p.Flags) > 1 && !keepS {
 				for _, f := range []string{p.Flags[:1], p.Flags[1:]} {
 					q := p.clone()
 					q.Flags = f
@@ -392,7 +415,7 @@ func shrinkProg(p Prog, valid func(Prog) bool, fails func(Prog) bool) Prog {
 		}
 		// simplify tokens
 		simpler := map[string]string{"ab": "a", "b": "a", "c": "a", "a-c": "a", "!-~": "a", "{2}": "?", "+": "?", "*": "?", "(": "(?:",
-			`\"`: `"`, `\Q"\E`: `"`, `\x22`: `"`, `\x5c`: `\\`, `\x{2019}`: "é", "\x7f": "\x01", `\D`: `\s`, `\S`: ".", `\W`: `\s`,
+			`\"`: `"`, `\Q"\E`: `"`, `\x22`: `"`, `\x5c`: `\\`, `\x{2019}`: "é", "\x7f": "\x01", `\D`: `\s`, `\S`: ".", `\W`: `\s`, `\n`: `\s`,
 			"##!> cmdline windows": "##!> cmdline unix", "  a": "a", "a~": "aa", "b@": "aa", "{{d}}b": "aa", "aa": "a"}
 		for i := 0; i < len(p.Lines); i++ {
 			for j := 0; j < len(p.Lines[i]); j++ {
@@ -407,6 +430,29 @@ func shrinkProg(p Prog, valid func(Prog) bool, fails func(Prog) bool) Prog {
 			return p
 		}
 	}
+}
+
+// hasDot: an unescaped dot somewhere in the program (entries, prefix, suffix)
+func hasDot(p Prog) bool {
+	dot := func(t string) bool {
+		for i := 0; i < len(t); i++ {
+			if t[i] == '\\' {
+				i++
+			} else if t[i] == '.' {
+				return true
+			}
+		}
+		return false
+	}
+	if dot(p.Prefix) || dot(p.Suffix) {
+		return true
+	}
+	for _, l := range p.Lines {
+		if dot(strings.Join(l, "")) {
+			return true
+		}
+	}
+	return false
 }
 
 func hasEntry(lines [][]string) bool {
